@@ -4,8 +4,8 @@
    self._sink / self._cover / self._expiry_heap are state variables; SortedList.add / remove and
    MemoryTimeline.fetch on a store without recurring patterns are the library models sl_add,
    sl_remove, fetch_static. *)
-From CG Require Import Model.Loop Gen.Source Model.Cache Proofs.GenEq.
-From Coq Require Import Lia.
+From CG Require Import Model.Loop Gen.Source Model.Cache Proofs.GenEq Proofs.CacheInv.
+From Coq Require Import Lia Permutation.
 
 (* ---- _purge_sink ---- *)
 Theorem g_cache_purge_sink_eq sk s e : g_cache_purge_sink sk s e = purge_sink sk s e.
@@ -85,6 +85,51 @@ Corollary fill_gap_sink_is_source {KEYS : Type} masked ttl tick evs gs ge s kv (
        (fst (g_cache_fill_gap_clip (sink s) kv kf (fun _ _ _ => evs) gs ge))).
 Proof. rewrite g_cache_fill_gap_clip_eq. reflexivity. Qed.
 
+(* ---- _evict_expired ---- *)
+Lemma py_index_0 {A : Type} (d x : A) r : py_index d (x :: r) 0 = x.
+Proof.
+  unfold py_index. cbn [length Z.ltb Z.compare]. cbn [Z.leb Z.compare andb].
+  replace (0 <? Z.of_nat (S (length r))) with true by (symmetry; apply Z.ltb_lt; lia).
+  reflexivity.
+Qed.
+
+(* HEADLINE: under the cache invariant "the heap entries are exactly the covers" (heap_inv's hi_bij,
+   Proofs/CacheInv.v) the `except ValueError: continue` path is never taken and the translated
+   _evict_expired, with fuel for every heap entry, computes the model's evict_go *)
+Theorem g_cache_evict_expired_eq t : forall h fuel cv sk,
+  (length h <= fuel)%nat ->
+  Permutation (map h_cov h) cv ->
+  g_cache_evict_expired fuel t h cv sk = RDone (evict_go t h cv sk).
+Proof.
+  unfold g_cache_evict_expired. cbv zeta.
+  induction h as [|[[ex sq] c] r IH]; intros fuel cv sk Hf Hp.
+  - destruct fuel; reflexivity.
+  - cbn [length] in Hf. destruct fuel as [|f]; [lia|].
+    cbn [iter_while evict_go nonempty andb]. rewrite py_index_0. cbn [fst hd tl].
+    destruct (ex <=? t); [|reflexivity].
+    assert (Hin : In c cv) by (eapply Permutation_in; [exact Hp|left; reflexivity]).
+    replace (existsb (cov_eqb c) cv) with true.
+    2:{ symmetry. apply existsb_exists. exists c. split; [exact Hin|apply cov_eqb_eq; reflexivity]. }
+    rewrite g_cache_purge_sink_eq.
+    apply IH; [lia|].
+    cbn [map] in Hp. change (h_cov (ex, sq, c)) with c in Hp.
+    apply Permutation_cons_inv with (a := c).
+    eapply Permutation_trans; [exact Hp|]. apply cov_remove_perm. exact Hin.
+Qed.
+
+(* without the invariant: what the code does when a popped cover is absent (it skips the purge,
+   where evict_go purges): the two differ only there *)
+Example evict_absent_cover_differs :
+  g_cache_evict_expired 1 10 [(5, 1%N, mkCov 0 4 0)] [] [mkI (Some 1) (Some 2) Plain]
+  = RDone ([], [], [mkI (Some 1) (Some 2) Plain]) /\
+  evict_go 10 [(5, 1%N, mkCov 0 4 0)] [] [mkI (Some 1) (Some 2) Plain] = ([], [], []).
+Proof. split; vm_compute; reflexivity. Qed.
+
+(* non-vacuity of the hypothesis *)
+Example evict_hyp_ok : Permutation (map h_cov [(5, 1%N, mkCov 0 4 0)]) [mkCov 0 4 0].
+Proof. apply Permutation_refl. Qed.
+
 Print Assumptions g_cache_purge_sink_eq.
+Print Assumptions g_cache_evict_expired_eq.
 Print Assumptions g_cache_fill_gap_clip_eq.
 Print Assumptions fill_gap_sink_is_source.
